@@ -41,6 +41,8 @@ def make_kernel(name, d, bs=()):
         return K.MultitaskKernel(K.LinearKernel() + K.ConstantKernel(), num_tasks=2, rank=1), 2
     if name == "lcm":
         return K.LCMKernel([K.RBFKernel(), K.MaternKernel(nu=1.5)], num_tasks=2, rank=1), 2
+    if name == "rbf_grad_ard":
+        return K.RBFKernelGrad(ard_num_dims=d), 1 + d
     if name == "rbf_grad":
         return K.RBFKernelGrad(), 1 + d
     if name == "poly":
@@ -259,6 +261,13 @@ def active_dims(S, kernel, batch):
         got = dense(ka(x1, x2))
         want = as_sym_arr(SH.get(dense(kb(x1[..., [2, 0]], x2[..., [2, 0]]))))
         S.prove_eq(got, want, "active_dims=(2,0) = kernel on columns (2,0)")
+        with gpytorch.settings.debug(False):
+            # the same kernel asked again, with the shape checks of debug mode off: it still uses only its active columns
+            first = dense(ka(x1, x2))
+            second = dense(ka(x1, x2))
+        S.prove_eq(first, want, "active_dims, debug(False): first lazy evaluation")
+        S.prove_eq(second, want, "active_dims, debug(False): second evaluation of the same kernel")
+        S.check_concrete(ka.active_dims is not None and ka.active_dims.tolist() == [2, 0], "the kernel still has its active_dims after being evaluated", str(ka.active_dims))
         if bs:
             for i in range(batch):
                 S.prove_eq(dense(ka[i](x1[i], x2[i])), want[i], "kernel[%d] keeps active_dims" % i)
@@ -287,6 +296,7 @@ def scenarios(tier, seed):
     add("indexing", kernel="scale_rq", n1=3, n2=4, d=1, batch=2, alphabet="q")
     for kern in ("rbf", "scale_rq", "multitask", "multitask_linear", "rbf_grad", "poly"):
         add("views", kernel=kern, n=2 if kern in ("multitask", "multitask_linear", "rbf_grad") else 3, d=1)
+    add("views", kernel="rbf_grad_ard", n=2, d=2)  # distinct lengthscales per dimension: the derivative blocks of the diagonal differ
     add("views", kernel="rbf", n=3, d=3)
     for kern in ("rbf", "scale_rq"):
         add("diag_batched", kernel=kern, b=3, n=3, d=2)
